@@ -16,6 +16,9 @@ def handle (fn : String) (args : List Json) : String :=
   | "is_valid" => match args with
     | [a0] => (do let x0 ← Wire.decStr a0; pure (Wire.respondWith Wire.encBool (Gen.it_aic.is_valid x0)) : Option String).getD "badargs"
     | _ => "badargs"
+  | "to_base32" => match args with
+    | [a0] => (do let x0 ← Wire.decStr a0; pure (Wire.respondWith Wire.encStr (Gen.it_aic.to_base32 x0)) : Option String).getD "badargs"
+    | _ => "badargs"
   | "validate" => match args with
     | [a0] => (do let x0 ← Wire.decStr a0; pure (Wire.respondWith Wire.encStr (Gen.it_aic.validate x0)) : Option String).getD "badargs"
     | _ => "badargs"
